@@ -503,3 +503,42 @@ Example T07b_caveat_unchanged_setfile :
   let ops := [OpOpen 0; OpClose 0; OpCreate 2 (FTable 12); OpDelete 1; OpAdvance 5 0; OpReloadNow 0; OpOpen 0] in
   frun (fs_init w0 0 None None) ops = [OutView [11]; OutNone; OutNone; OutNone; OutNone; OutNone; OutView [11]].
 Proof. vm_compute. reflexivity. Qed.
+
+(* ------------------------------------------------------------------------------------------------
+   T07f - mtbl_fileset_partition (model/FilesetPart.v, following the C function statement by
+   statement): after the reload that mtbl_fileset_partition performs first, the two mergers it builds
+   hold, between them, every loaded reader exactly once (a permutation of all of them), the first the
+   readers whose file NAME the caller's predicate accepts, the second the others - the handle's own
+   filename and reader filters are not consulted.  It returns normally exactly when every loaded
+   entry has a reader: a setfile line naming an existing file that is not a table leaves an entry
+   without reader, and there the C code calls mtbl_reader_source(NULL), whose assertion stops the
+   process (observation O8; no listed property speaks about it; the model says PAbort and engine fs
+   sees the real abort on exactly those histories). *)
+From Mtbl Require Import model.FilesetPart proofs.FilesetPartProofs.
+From Coq Require Import Permutation.
+
+Theorem T07f_partition : forall st hi cb,
+  let '(w', s', _) := fileset_reload (fs_world st) (fs_shared st) (nth hi (fs_handles st) dummy_handle) in
+  let ents := sh_entries s' in
+  match snd (fileset_partition st hi cb) with
+  | PAbort => exists e, In e ents /\ fe_reader e = None
+  | POk m1 m2 =>
+      (forall e, In e ents -> fe_reader e <> None) /\
+      Permutation (m1 ++ m2) (all_sources ents) /\
+      (forall x, In x m1 <-> exists e, In e ents /\ cb (fe_name e) = true /\ entry_source e = Some x) /\
+      (forall x, In x m2 <-> exists e, In e ents /\ cb (fe_name e) = false /\ entry_source e = Some x)
+  end.
+Proof.
+  intros st hi cb. unfold fileset_partition.
+  destruct (fileset_reload _ _ _) as [[w' s'] h'] eqn:E. cbn [snd]. exact (partition_spec cb (sh_entries s')).
+Qed.
+Print Assumptions T07f_partition.
+
+(* non-vacuity: three tables and a dup whose own filters would hide two of them; a non-table in the setfile *)
+Example T07f_example :
+  let w0 := mkworld 1 1 [1; 2; 3] [(1, FTable 11); (2, FTable 12); (3, FTable 13)] 1000 0 in
+  snd (fileset_partition (fstate_after (fs_init w0 0 (Some 0) (Some 0)) [OpOpen 0; OpClose 0]) 0 (parity_cb 1))
+  = POk [(1, 11); (3, 13)] [(2, 12)] /\
+  let w1 := mkworld 1 1 [1; 2] [(1, FTable 11); (2, FNotTable)] 1000 0 in
+  snd (fileset_partition (fs_init w1 0 None None) 0 (parity_cb 0)) = PAbort.
+Proof. vm_compute. split; reflexivity. Qed.
